@@ -76,6 +76,9 @@ type End struct {
 	peer       *End
 	// OnIO, if set, is called (outside locks) at the start of every Read/Write with the call index.
 	OnIO func(idx int, isWrite bool)
+	// OnClosing, if set, is called inside Close after the pending I/O has been failed and before Close returns.
+	OnClosing func()
+	closed    int // Close calls that have returned
 }
 
 // Pipe returns two connected ends sharing a logical clock.
@@ -279,10 +282,21 @@ func (e *End) shut(err error) {
 func (e *End) Close() error {
 	e.mu.Lock()
 	e.closes++
+	cb := e.OnClosing
 	e.mu.Unlock()
 	e.shut(ErrSimClosed)
+	if cb != nil {
+		// the pending I/O has been let go; the rest of the shutdown takes as long as the harness says
+		cb()
+	}
+	e.mu.Lock()
+	e.closed++
+	e.mu.Unlock()
 	return nil
 }
+
+// ClosesDone counts the Close calls that have returned.
+func (e *End) ClosesDone() int { e.mu.Lock(); defer e.mu.Unlock(); return e.closed }
 
 // Fail breaks the end as a dead socket would (own=true: this end's calls report
 // the injected fault; own=false: the end simply went away, e.g. the peer process died).
